@@ -28,6 +28,9 @@ class TLCResult:
         m = re.findall(r"(\d+) states generated, (\d+) distinct states found, (\d+) states left", out)
         self.generated = int(m[-1][0]) if m else 0
         self.distinct = int(m[-1][1]) if m else 0
+        m2 = re.search(r"The number of states generated: (\d+)", out)
+        if m2 and not m:
+            self.generated = self.distinct = int(m2.group(1))
         m = re.search(r"depth of the complete state graph search is (\d+)", out)
         self.diameter = int(m.group(1)) if m else 0
         self.violated = re.findall(r"Invariant (\S+) is violated", out)
